@@ -189,8 +189,10 @@ def export_world_edges(consts):
     cfg = os.path.join(BUILD, "tlc", "wtour-%s.cfg" % key_of(consts)[:8])
     os.makedirs(os.path.dirname(cfg), exist_ok=True)
     with open(cfg, "w") as f:
+        if "Events" not in consts:
+            consts = dict(consts, Events="FALSE")
         f.write("SPECIFICATION Spec\nCONSTANTS\n" + "".join("  %s = %s\n" % kv for kv in consts.items()) +
-                "  Edges = TRUE\nINVARIANTS RepInv CrossWorldSafe\nCHECK_DEADLOCK FALSE\n")
+                "  Edges = TRUE\nINVARIANTS RepInv CrossWorldSafe EventsOk\nCHECK_DEADLOCK FALSE\n")
     rc, out, dt = run_tlc("WorldMC", cfg=cfg, workers=8, timeout=3000)
     if "No error has been found" not in out:
         raise ToolError("WorldMC failed:\n" + out[-3000:])
@@ -206,10 +208,10 @@ def world_real_edge(e):
     f, t = e["from"][w][1], e["to"][w][1]
     return not (f["len"] >= f["cap"] and t["cap"] != 2 * (f["cap"] + 1))
 
-def plan_world_paths(edges, init_caps, max_len=30):
+def plan_world_paths(edges, init_caps, max_len=30, events=False):
     inits = []
     for c in init_caps:
-        inits.append([["world", new_state(c)], ["none"]])
+        inits.append([["world", new_state(c)] + ([[], []] if events else []), ["none"]])
     # reuse plan_paths with explicit initial nodes
     adj = {}
     for i, e in enumerate(edges):
@@ -302,10 +304,15 @@ def render_world(edges, paths, a):
                 lines.append("%s %d %d" % (e["op"], e["arg"][0] - 1, e["arg"][1] - 1))
             elif e["op"] == "drop":
                 lines.append("drop %d" % (e["arg"][0] - 1))
+            elif e["op"] == "clear_events":
+                # world-level and archetype-level clear alternate
+                lines.append("clear_events %d" % (e["arg"][0] - 1) + ((" %d" % a) if counter % 2 else ""))
             expect[len(lines)] = e["to"]
     return lines, expect
 
-def compare_world(trace, expect, a):
+def compare_world(trace, expect, a, events=False):
+    def evl(l):
+        return [[t[1], (t[2] << 16) | t[3]] for t in l]
     matched = drift = 0
     first = None
     with open(trace) as f:
@@ -321,7 +328,7 @@ def compare_world(trace, expect, a):
             for o in ev.get("obs", []):
                 x = o["ar"][a]
                 if o["w"] < 2:
-                    got[o["w"]] = ["world", dump_to_model(x["dump"], x["cap"], x["len"])]
+                    got[o["w"]] = ["world", dump_to_model(x["dump"], x["cap"], x["len"])] + ([evl(x.get("evc", [])), evl(x.get("evd", []))] if events else [])
             if got == want:
                 matched += 1
             else:
